@@ -69,6 +69,7 @@ def main():
             json.dump(repl, open(ex, "w"))
             env = dict(os.environ)
             env["VERIF_OVERLAY_EXTRA"] = ex
+            env["VERIF_REPLAY_DIR"] = os.path.join(wd, "replays")
             p = subprocess.run([os.path.join(VERIF, "bin", "vcheck"), a.prop, "--tier", "quick", "--no-evidence"],
                                env=env, capture_output=True, text=True)
             caught = p.returncode == 1 and "VIOLATION property=" + a.prop in p.stdout
